@@ -1224,6 +1224,10 @@ func handleAction(c *webClient, a any) error {
 			}
 		}
 	case changePermissionsAction:
+		if c.group == nil {
+			// the client has left in the meantime
+			return nil
+		}
 		switch a.kind {
 		case "op":
 			c.permissions = addnew("op", c.permissions)
@@ -1249,7 +1253,8 @@ func handleAction(c *webClient, a any) error {
 	case permissionsChangedAction:
 		g := c.Group()
 		if g == nil {
-			return errors.New("Permissions changed in no group")
+			// the client has left in the meantime
+			return nil
 		}
 		perms := append([]string(nil), c.permissions...)
 		status := g.Status(true, nil)
